@@ -274,6 +274,7 @@ func rulesC02(c *Ctx) {
 	}
 	c.c02Backends()
 	c.c02MeltQuoteCreation()
+	c.c02InternalNeverPartial()
 }
 
 func (c *Ctx) c02FeeFormula(f *ssa.Function, ks string) {
@@ -622,6 +623,73 @@ func (c *Ctx) c02MeltQuoteCreation() {
 				}
 			}
 		}
+	}
+}
+
+// c02InternalNeverPartial: R7. A melt quote for an invoice of one of the mint's own mint quotes is settled
+// internally by crediting that mint quote for its full amount, so such a quote must never be stored as a
+// partial (MPP) payment. Decided by a path condition: with the branch edges of "the mint-quote look-up
+// by payment hash failed" removed (and the branches that become constant with them), the value stored
+// has IsMpp == false and an amount derived from the invoice only.
+func (c *Ctx) c02InternalNeverPartial() {
+	R := c.R
+	op := c.op("R7", "/v1/melt/quote/{method}")
+	if op == nil {
+		return
+	}
+	fk := c.P.FuncKey(op)
+	o := c.P.OriginsOf(op)
+	var lookups, saves []ssa.CallInstruction
+	for _, ci := range Calls(op) {
+		d := c.P.Describe(ci)
+		if c.V.DBRole(d, roleReadMint) {
+			lookups = append(lookups, ci)
+		}
+		if c.V.DBRole(d, roleNewMelt) {
+			saves = append(saves, ci)
+		}
+	}
+	if len(lookups) != 1 || len(saves) == 0 {
+		R.Unresolved("R7", "internal-invoice detection in "+fk, fmt.Sprintf("mint-quote look-ups=%d melt-quote inserts=%d", len(lookups), len(saves)))
+		return
+	}
+	lk := lookups[0]
+	pos := o.AcceptEdges(errNilOf(lk, "a mint quote with the same payment hash exists"))
+	if len(pos) == 0 {
+		R.Check("R7", fk, "internal invoice => not partial", c.P.InstrPos(lk), false, "an invoice of the mint's own mint quote is never accepted as a partial payment", "the result of the mint-quote look-up is not tested")
+		return
+	}
+	cut := NewCut()
+	for e := range pos {
+		for i := range e.From.Succs {
+			if i != e.Succ {
+				cut.Edges[Edge{e.From, i}] = true
+			}
+		}
+	}
+	if o.Loops.InnermostContaining(lk.Block()) != nil {
+		R.Undecided("R7", fk, "internal invoice => not partial", c.P.InstrPos(lk), "an invoice of the mint's own mint quote is never accepted as a partial payment", "the look-up sits in a loop; the path condition is not decided")
+		return
+	}
+	pruneInfeasible(o, op, cut)
+	oc := o.WithCut(cut.Edges)
+	n := 0
+	for _, sv := range saves {
+		// only inserts that can follow a successful look-up
+		if reach, _ := Reach(Point{lk.Block(), instrIndex(lk) + 1}, PointOf(sv), cut); !reach {
+			continue
+		}
+		n++
+		q := oc.Of(c.P.Describe(sv).Args[0])
+		mpp, amt, fee := project(q, "IsMpp"), project(q, "Amount"), project(q, "FeeReserve")
+		ok := isConst(mpp, "false") && !strings.Contains(amt.String(), "AmountMsat") && !strings.Contains(amt.String(), "Options") && strings.Contains(amt.String(), "MSatoshi")
+		R.Check("R7", fk, "internal invoice => stored quote is not partial", c.P.InstrPos(sv), ok,
+			"when a mint quote with the same payment hash exists the stored melt quote has IsMpp == false and the invoice's full amount (internal settlement credits the mint quote in full)",
+			fmt.Sprintf("on the paths after a successful look-up: IsMpp=%s Amount=%s", short(mpp.String(), 60), short(amt.String(), 120)))
+		R.Check("R7", fk, "internal invoice => fee reserve 0", c.P.InstrPos(sv), isConst(fee, "0"), "an internally settled quote reserves no Lightning fee", "FeeReserve="+short(fee.String(), 100))
+	}
+	if n == 0 {
+		R.Check("R7", fk, "internal invoice => stored quote is not partial", c.P.InstrPos(lk), false, "a melt quote can be stored after a successful look-up", "no insert is reachable after the look-up succeeded")
 	}
 }
 
